@@ -1426,9 +1426,14 @@ class Check(PropertyCheck):
         j = int(x64)
         for shape in INDEX_SHAPES:
             forms = index_forms(shape, rnd)
-            nrand = 0 if not shape else (12 * len(shape) if quick else 150 * len(shape))
+            nrand = 0 if not shape else (12 * len(shape) if quick else 60 * len(shape))
             forms += [('random', random_index(shape, rnd)) for _ in range(nrand)]
+            seen = set()
             for label, ixd in forms:
+                key = json.dumps(ixd)
+                if key in seen:
+                    continue
+                seen.add(key)
                 kinds = [KINDS[j % 4]] if quick else KINDS
                 for kind in kinds:
                     cfg = DTCFG[(j // 4 + KINDS.index(kind)) % 4]
